@@ -538,7 +538,7 @@ fn k_push_clip_rect_0() { push_clip_rect_contract(0); }
 #[kani::unwind(9)]
 fn k_push_clip_rect_1() { push_clip_rect_contract(1); }
 
-// @ob id=K.push_clip_rect_2 props=C05 kind=bounded:surface=3x2 tier=quick timeout=600 fns=DrawTarget::push_clip_rect,DrawTarget::pop_clip
+// @ob id=K.push_clip_rect_2 props=C05,C10 kind=bounded:surface=3x2 tier=quick timeout=600 fns=DrawTarget::push_clip_rect,DrawTarget::pop_clip
 // @+ desc="push_clip_rect(r) on top of a PATH clip entry (symbolic coverage bytes): the new top entry keeps that coverage mask byte for byte (the top entry represents the intersection of everything pushed, so path clips below stay in force); lower entry unchanged; pop restores"
 #[kani::proof]
 #[kani::unwind(9)]
